@@ -22,6 +22,7 @@ package fuzz
 import (
 	"bytes"
 	"fmt"
+	"os"
 	"sort"
 	"testing"
 
@@ -540,5 +541,14 @@ func TestVerif_C23(t *testing.T) {
 	defer s.Finish()
 	s.EnableSentinel()
 	logger.Disable()
-	kit.Run(s, "accumulator_and_sealer_vs_model", kit.N{Quick: 2500, Thorough: 60000}, c23Gen, c23Check)
+	// VERIF_C23_SUB=<name> runs one sub-property only (sensitivity runs; never set by the driver)
+	only := os.Getenv("VERIF_C23_SUB")
+	if only == "" || only == "accumulator_and_sealer_vs_model" {
+		kit.Run(s, "accumulator_and_sealer_vs_model", kit.N{Quick: 2500, Thorough: 60000}, c23Gen, c23Check)
+	}
+	// the same transition on ONE live chain state (StateCommit hands the posterior state over to the
+	// prior state, rejected blocks are dropped): zz_verif_c23_live_test.go
+	if only == "" || only == "live_chain_state_safrole" {
+		kit.Run(s, "live_chain_state_safrole", kit.N{Quick: 4000, Thorough: 80000}, c23lGen, c23lCheck)
+	}
 }
